@@ -68,9 +68,10 @@ def _orientation_to_cytoscape_elements(orientation_obj: CFOrientation):
 
     for element in elements:
         if 'source' in element.get('data', {}): # It's an edge
-            edge_id_parts = element['data']['id'].split('-')
-            id_v1_name = edge_id_parts[0]
-            id_v2_name = edge_id_parts[1]
+            # The endpoints are stored on the element itself; the id 'a-b-i' cannot be split
+            # back into names when a vertex name contains '-'.
+            id_v1_name = element['data']['source']
+            id_v2_name = element['data']['target']
 
             oriented_pair = orientation_obj.get_orientation(id_v1_name, id_v2_name)
 
